@@ -412,11 +412,22 @@ func (h kvHandler) handleKvScanLock(req *kvrpcpb.ScanLockRequest) *kvrpcpb.ScanL
 		// The client decides how to resolve a lock by its type (e.g. pessimistic locks), so the response needs it.
 		scanLock = s.ScanLockWithDetails
 	}
+	// The request may narrow the scan to [start_key, end_key) inside the region and bound the number of locks, as
+	// a client scanning a key range (or a region with more locks than its scan limit) does.
+	if len(req.GetStartKey()) > 0 && bytes.Compare(req.GetStartKey(), startKey) > 0 {
+		startKey = req.GetStartKey()
+	}
+	if len(req.GetEndKey()) > 0 && (len(endKey) == 0 || bytes.Compare(req.GetEndKey(), endKey) < 0) {
+		endKey = req.GetEndKey()
+	}
 	locks, err := scanLock(startKey, endKey, req.GetMaxVersion())
 	if err != nil {
 		return &kvrpcpb.ScanLockResponse{
 			Error: convertToKeyError(err),
 		}
+	}
+	if limit := int(req.GetLimit()); limit > 0 && len(locks) > limit {
+		locks = locks[:limit]
 	}
 	return &kvrpcpb.ScanLockResponse{
 		Locks: locks,
